@@ -27,6 +27,9 @@ structure Cand where
   spec : FuncSpec
   kind : CandKind
   height : Nat := 0
+  /-- a static overload one of whose forward requirements is unfulfilled at the point of the lookup (a
+  `forward fn` declaration whose implementation has not been declared yet) -/
+  pending : Bool := false
   deriving Repr
 
 inductive Res where
@@ -75,6 +78,49 @@ def resolveLoop (isUnk : Bool) (args : List Ty) : List Cand → List Cand → Li
 
 def resolve (cs : List Cand) (args : List Ty) : Res :=
   resolveLoop (anyUnknown args) args cs [] [] []
+
+/-! ### candidate collection across scopes: `CompilationScope::get_item` for a function name
+(compilation_scope.rs, the `functions` arm).  A scope level holds the overloads of the name registered in that scope
+(`self.functions.get(name)`, in registration order; for the body scope of a function of that name this includes the
+function itself, registered by `add_recourse`) and, if the scope is the body of a function of that name, that
+function's type (`recourse_xtype`).  Levels are listed innermost first.  A scope without an entry for the name
+delegates to its parent.  The parent's overloads are appended; in the body of a function of that name a parent
+overload is skipped exactly when it is static, its type equals (`==`) the type of the function being compiled and
+it has an unfulfilled forward requirement towards the declaring scope - i.e. only the function's OWN pending
+forward declaration. -/
+structure ScopeLevel where
+  funcs : List Cand
+  recourse : Option Ty := none
+  /-- `self.height`; a candidate's `height` is the height of the scope that registered it -/
+  height : Nat := 0
+  deriving Repr
+
+/-- the function's own forward declaration: same type, still pending, and declared in the scope the function itself
+is declared in, i.e. the parent of the body scope (`freq.ancestor_height + 1 == self.height`) -/
+def skipOwnForward (rt : Ty) (selfHeight : Nat) (c : Cand) : Bool :=
+  match c.kind with
+  | .static => Ty.beq c.spec.xtype rt && (c.pending && c.height + 1 == selfHeight)
+  | .dynamic => false
+
+def getItem : List ScopeLevel → Option (List Cand)
+  | [] => none
+  | l :: parents =>
+    match l.funcs with
+    | [] => getItem parents
+    | _ :: _ =>
+      match getItem parents with
+      | none => some l.funcs
+      | some ps =>
+        match l.recourse with
+        | some rt => some (l.funcs ++ ps.filter fun c => !(skipOwnForward rt l.height c))
+        | none => some (l.funcs ++ ps)
+
+/-- overload resolution at a call site: `None` from `get_item` is "no such function" (reported as NoOverload by
+`get_func`; a plain call of an unknown name is a different error, not produced by the generated programs) -/
+def resolveAt (levels : List ScopeLevel) (args : List Ty) : Res :=
+  match getItem levels with
+  | none => .noOverload
+  | some cs => resolve cs args
 
 /-! renaming of generic parameter names -/
 mutual
